@@ -131,6 +131,8 @@ def run(ctx):
             ctx.violation('C11.2', 'source:selection-not-tested', f_get.loc(), 'the source of the listing does not depend on the selected connection')
             continue
         want = 'connection.messages()' if sel[0] else 'tuple(self.all_messages)'
+        if not sel[0] and src in ('self.all_messages', 'list(self.all_messages)', 'self.all_messages[:]'):
+            src = want      # with or without a copy: the listing is read-only (C11.1), nothing is recorded while it scans
         ctx.check(src == want, 'C11.2', 'source:%s' % want, f_get.loc(), 'messages come from %s' % want, 'messages come from %s (selection=%s)' % (src, sel[0]))
 
     # ---- C11.3 order, C11.5 counts, C11.4 cap ----------------------------------------------------------------------
